@@ -361,6 +361,10 @@ func ConvertToJSON(val lua.LValue) string {
 		}
 		return "false"
 	case lua.LTNumber:
+		if f := float64(val.(lua.LNumber)); math.IsNaN(f) || math.IsInf(f, 0) {
+			// JSON has no literal for these
+			return "null"
+		}
 		return val.String()
 	case lua.LTString:
 		if b, err := json.Marshal(val.String()); err != nil {
@@ -384,14 +388,18 @@ func ConvertToJSON(val lua.LValue) string {
 			start = `{`
 			end = `}`
 			cb = func(lk lua.LValue, lv lua.LValue) {
-				values = append(
-					values, ConvertToJSON(lk)+`:`+ConvertToJSON(lv))
+				key := ConvertToJSON(lk)
+				if lk.Type() != lua.LTString {
+					// a member name must be a string
+					key = ConvertToJSON(lua.LString(lk.String()))
+				}
+				values = append(values, key+`:`+ConvertToJSON(lv))
 			}
 		}
 		tbl.ForEach(cb)
 		return start + strings.Join(values, `,`) + end
 	}
-	return "Unsupported lua type: " + val.Type().String()
+	return ConvertToJSON(lua.LString("Unsupported lua type: " + val.Type().String()))
 }
 
 func luaSetRawGlobals(ls *lua.LState, tbl map[string]lua.LValue) {
